@@ -33,6 +33,7 @@ func DefaultKeepAliveConfig() KeepAliveConfig {
 
 // KeepAliveState tracks the keep-alive state for a session
 type KeepAliveState struct {
+	session       *Session      // the monitored session (handed to the terminate callback)
 	Failures      int           // Consecutive failures
 	LastEchoSent  time.Time     // Time of last echo sent
 	LastEchoRecv  time.Time     // Time of last echo received
@@ -127,6 +128,7 @@ func (m *KeepAliveManager) RegisterSession(session *Session) {
 	defer m.mu.Unlock()
 
 	m.states[session.ID] = &KeepAliveState{
+		session:      session,
 		LastActivity: time.Now(),
 		LastEchoRecv: time.Now(), // Start fresh
 	}
@@ -295,16 +297,22 @@ func (m *KeepAliveManager) sendEchoForSession(sessionID uint16, state *KeepAlive
 func (m *KeepAliveManager) terminateSessionAsync(sessionID uint16, reason string) {
 	// Remove from our tracking first
 	m.mu.Lock()
+	var session *Session
+	if state, ok := m.states[sessionID]; ok {
+		session = state.session
+	}
 	delete(m.states, sessionID)
 	m.mu.Unlock()
 
-	// Callback handles actual termination
-	// Note: The callback needs to find the session object
-	// This is a limitation of the current design
 	m.logger.Info("Terminating session due to dead peer",
 		zap.Uint16("session_id", sessionID),
 		zap.String("reason", reason),
 	)
+
+	// Callback handles actual termination (called without the lock held)
+	if m.terminateSession != nil && session != nil {
+		m.terminateSession(session, reason)
+	}
 }
 
 // SessionKeepAlive handles keep-alive for a single session
